@@ -143,6 +143,7 @@ def run(prog):
                    and _peel(cs.args[0]) == m]
             if not ins:
                 continue
+            ret_t = canon.beta(prog, te.ret)
             hit = canon.payload(("call", g.callee, tuple(g.args)))
             hit_s = show(_peel(hit))
 
@@ -160,13 +161,13 @@ def run(prog):
                 any(x[0] == "as" and _peel(x[1]) == p and x[2] in COMPL | REGULAR for x in mir.subterms(te.ret))
             if not signed:
                 continue
-            rets = _leaves(te.ret)
+            rets = _leaves(ret_t)
             # alternatives of the return that are the hit, possibly negated
             rd = {}
             shape_ok = True
             for s in (0, 1):
                 vals = set()
-                for r in _leaves(specialise(te, te.ret, p, s)):
+                for r in _leaves(specialise(te, ret_t, p, s)):
                     base = [x for x in mir.subterms(r) if is_hit(x)]
                     if not base:
                         continue
@@ -197,8 +198,8 @@ def run(prog):
                             contra = True
                     if contra:
                         continue
-                    V = specialise(te, cs.args[2], p, s)
-                    after = [specialise(te, a, p, s) for a in _returned_after(f, te, te.ret, cs.bb, split=False)]
+                    V = specialise(te, canon.beta(prog, cs.args[2]), p, s)
+                    after = [specialise(te, canon.beta(prog, a), p, s) for a in _returned_after(f, te, te.ret, cs.bb, split=False)]
                     if not after:
                         und.append("no return after the insertion at line %d" % cs.line)
                         continue
